@@ -159,6 +159,7 @@ def rules_for(pid):
         ],
         "C12": [
             ("J", lambda c: _only(RJ.j_rules(c.P, c.E), ("J2", "J3", "J6", "J7")), 5),
+            ("J8", lambda c: RJ.j_windows(c.P, c.E), 4),
         ],
         "C13": [
             ("P", lambda c: RJ.p_rules(c.P, c.E), 6),
@@ -246,8 +247,9 @@ EXPLANATION = {
            "the deciding cell, D2 no emission under it; S-remove-and-test (last-one-out); F-atomic-take (per-kind "
            "terminal take).  Multiset conservation under all schedules is NOT decided.",
     "C12": "J2 (single write-locked insert/remove/clear), J3 (each next delivers to a consistent snapshot, no guard "
-           "held), J6 (append-before-broadcast, subscribe-before-replay).  Exactly-once / gap-freedom in the two-step "
-           "windows is NOT decided.",
+           "held), J6 (record-before-broadcast, subscribe-before-replay), J7 (replay under the history guard), J8 (atomicity "
+           "of record+broadcast and of hand-over+attach: a necessary condition of exactly-once / gap-freedom for late "
+           "subscribers; violated today in both Behavior- and ReplaySubject - known findings with gdb-forced schedules).",
     "C13": "P1 publish subscribes only in connect; P2 connect of ref_count/replay is test(is_some)-and-set under one write "
            "guard of `subscription` with source.subscribe behind the test; P3 count-down unsubscribes the stored "
            "subscription; P4 the cell is written only by connect; P5 callbacks forward next->next, error->error, "
